@@ -1,6 +1,7 @@
 pub mod bytes;
 pub mod faults;
 pub mod grammar;
+pub mod history;
 pub mod nums;
 pub mod pollmc;
 pub mod strings;
